@@ -44,7 +44,14 @@ func VX_C13_roundtrip() {
 			}
 			cols[k] = c
 		case "enum":
-			cols[k] = vxMakeColLite("enum", P)
+			c := vxMakeColLite("enum", P)
+			for p := 1; p < P; p++ {
+				// any cell may be null (written as an empty field) when EmptyNull reads it back as null; without
+				// EmptyNull an empty field is the value "" which a declared enum cannot hold: the statement
+				// only speaks of null *strings* there, so null enum cells are kept out of that setting
+				c.null[p] = emptyNull && vxBoolConc(vx.Bool())
+			}
+			cols[k] = c
 		default:
 			cols[k] = vxMakeCol(t, P, 0)
 		}
